@@ -244,6 +244,8 @@ func (g *c01gen) randomIngress(ns, name string, keep *world.IngressSpec) world.I
 		case 4:
 			s.Annotations["auth-url"] = "svc://" + gen.Pick(r, g.svcs) + ":8080"
 			s.Annotations["auth-external-placement"] = "frontend"
+		case 5, 6:
+			world.CreateTimeAnnotations(r, &s)
 		}
 	}
 	return s
